@@ -377,6 +377,8 @@ pub fn c05_env_part(out: &mut Outcome, t: bool) {
     let cl = Clauses { sched: true, model: true, ..Default::default() };
     let s = if t { 5 } else { 4 };
     for step_size in [1u64, 2, 3] {
+        // (thorough: five submissions for step size 1 only - 10^8 nodes, 5*10^9 plain replays per configuration)
+        let s = if step_size == 1 { s } else { 4 };
         let mut c = ecfg(&format!("Env<3>: step size {} < batch, two steps", step_size), false, &[1], step_size, s, 2, 0, &cl);
         c.alpha.prices = vec![vec![2, 3]];
         absorb_env(out, &c, 1, 3, run_env::<1, 3>(&c), "env", true);
